@@ -30,6 +30,8 @@ mod runtime_violation;
 pub mod time_provider;
 mod units;
 pub mod util;
+#[cfg(xray_verif)]
+pub use crate::builtin::verif;
 pub mod xexpr;
 pub mod xtype;
 pub mod xvalue;
